@@ -262,7 +262,7 @@ func cmdCheck(args []string) int {
 					continue
 				}
 				confirmed := false
-				if o.Status == "refuted" {
+				if o.Status == "refuted" || o.Status == "unknown" {
 					confirmed = tryReplay(eng, prop, o)
 				}
 				fail(o.Name, what, o, confirmed)
@@ -281,7 +281,11 @@ func cmdCheck(args []string) int {
 	}
 	if *verbose {
 		sort.Slice(all, func(i, j int) bool { return all[i].TimeS > all[j].TimeS })
-		for i := 0; i < 8 && i < len(all); i++ {
+		lim := 8
+		if os.Getenv("GOVC_ALL") != "" {
+			lim = len(all)
+		}
+		for i := 0; i < lim && i < len(all); i++ {
 			fmt.Printf("slow: %.2fs %s %s %s\n", all[i].TimeS, all[i].Status, all[i].Solver, all[i].Name)
 		}
 	}
